@@ -285,7 +285,13 @@ fn binop(b: BinOp, a: NRef, aq: Q, c: NRef, cq: Q) -> R {
 fn pow(a: NRef, c: NRef, q: Q) -> R {
     if let Some((i, j)) = both_int(a, c) {
         if j < 0 {
-            return RV::Unspec("U3: Integer raised to a negative Integer");
+            // C09 fixes only exponents 0..4294967295 and C15 excepts this case from bit-for-bit agreement with
+            // eval_f64, but the operation still is x^y (C10): the reciprocal of the integer power, within 1e-9
+            let v = (i as f64).powf(j as f64);
+            if i == 0 || !v.is_finite() || v == 0.0 || v.abs() < 1e-300 {
+                return RV::Unspec("U3: Integer raised to a negative Integer: zero base or underflow");
+            }
+            return num(v, if q == Q::Exact { Q::Tol(v.abs() * 1e-9) } else { Q::Skip });
         }
         if j > u32::MAX as i64 {
             return RV::Unspec("U3: exponent beyond 4294967295");
@@ -315,6 +321,15 @@ fn pow(a: NRef, c: NRef, q: Q) -> R {
 
 fn rounding(r: NRef, q: Q, f: fn(f64) -> f64) -> R {
     match r.v {
+        // an integer value whose variant is open (the result of an aggregate): its numeric value is that integer, which
+        // a detour through a double would round beyond 2^53
+        NV::Int(i) if !r.typed => RV::Val(
+            NRef {
+                v: NV::Int(i),
+                typed: false,
+            },
+            down(q),
+        ),
         NV::Int(i) if r.typed => RV::Val(
             NRef {
                 v: NV::Int(i),
@@ -399,6 +414,14 @@ fn call(f: Func, args: &[Node], at: NV) -> R {
     match f {
         Abs => match vs[0].v {
             NV::Int(i) if vs[0].typed => int_or_float((i as i128).abs(), (i as f64).abs(), q),
+            // an integer whose variant is open (the result of an aggregate): still that integer, not its double
+            NV::Int(i) if i != i64::MIN => RV::Val(
+                NRef {
+                    v: NV::Int(i.abs()),
+                    typed: false,
+                },
+                q,
+            ),
             v => num(v.f().abs(), q),
         },
         Sign => {
